@@ -40,8 +40,10 @@ def run(ctx) -> None:
     ctx.rule("R10", "calendar parts 'taken from the given date': an unusable --date (or --date together with --pin-date) is fatal, not merely logged")
     shapes.errors_are_fatal(ctx, "R10", "cli._validate_date", 2)
     ctx.rule("R11", "parts not addressed by a flag are unchanged / TAG carried over: the reader hands every captured non-calendar value (and the other tag form) to the bump unchanged (C02's reader rule)")
-    from checks.c02 import reader_fold_rule
+    field_order_rule(ctx, "R3")
+    from checks.c02 import reader_fold_rule, parsed_quarter_rule
     reader_fold_rule(ctx, "R11")
+    parsed_quarter_rule(ctx, "R11", "v2version.parse_field_values_to_cinfo")
     ctx.rule("R8", "calendar parts 'taken from the given date': both calendar producers bind each field to its strftime directive, quarter = ((month-1)//3)+1")
     from sa.report import run_prerequisite
     run_prerequisite(ctx, "C17", ("R1", "R2", "R3"), "R7")
@@ -477,3 +479,41 @@ def none_filter_rule(ctx, eng: str, rule: str) -> bool:
     ctx.check(rule, ok, f"{eng}._is_cal_gt returns <collected left values> > <collected right values> (lexicographic, strict)",
               f"{eng}._is_cal_gt: comparison is not `left > right`", unparse(rets[0]) if rets else "", loc=gt.loc())
     return False
+
+
+def field_order_rule(ctx, rule: str) -> None:
+    """_parse_pattern_fields evaluated on four segment lists: the fields of a pattern in the order of the first occurrence of
+    each part, segment by segment, left to right (a part used twice counts where it stands first)."""
+    from sa.model import CannotFold, EvalError
+    prog = ctx.prog
+    pf = prog.function("v2version._parse_pattern_fields")
+    ctx.visit(pf.fq)
+    tab = prog.const("v2patterns", "PATTERN_PART_FIELDS")
+    wrong: T.List[str] = []
+    n = 0
+    try:
+        for segments in (["MAJOR.MINOR.PATCH"], ["vYYYY0M.BUILD", "-TAG"], ["YY.MAJOR.YYYY"], ["YYYY.", "INC0", ".BUILD-YYYY"]):
+            env = {pf.params[0]: "".join(segments), "__strict__": True,
+                   "__stubs__": {"_parse_segtree": lambda f, node: "SEGTREE", "_iter_flat_segtree": lambda f, node, segments=segments: list(segments)}}
+            try:
+                got, _ys = prog.run_body(pf, env)
+            except EvalError as ex:
+                got = f"raises: {ex}"
+            by_index = {}
+            for si, seg in enumerate(segments):
+                for part, field in tab.items():
+                    i = seg.find(part)
+                    if i >= 0:
+                        # the longest part name that starts at an index is the one written there
+                        if (si, i) not in by_index or len(part) > by_index[si, i][0]:
+                            by_index[si, i] = (len(part), field)
+            want = [f for _k, (_l, f) in sorted(by_index.items())]
+            n += 1
+            if got != want:
+                wrong.append(f"segments {segments}: {got}, expected {want}")
+    except (CannotFold, TypeError, AttributeError, KeyError, ValueError, IndexError) as ex:
+        ctx.observe(f"_parse_pattern_fields not evaluated ({type(ex).__name__}: {str(ex)[:80]})")
+        return
+    ctx.check(rule, not wrong, f"_parse_pattern_fields: fields in the order the parts stand in the pattern ({n} patterns evaluated)",
+              "v2version._parse_pattern_fields: the reset order is not the left-to-right order of the parts", "; ".join(wrong[:2]) + " - a part right of a changed part is not reset",
+              loc=pf.loc(), witness={"version": "25.3.2025", "pattern": "YY.MAJOR.YYYY"})
